@@ -223,7 +223,12 @@ class Fingerprinter(object):
                 [
                     x.GetIdx()
                     for x in mol.GetAtoms()
-                    if (x.GetAtomicNum() > 1 and x.GetDegree() > 0)
+                    if (
+                        x.GetAtomicNum() > 1
+                        and any(
+                            n.GetAtomicNum() > 1 for n in x.GetNeighbors()
+                        )
+                    )
                 ]
             )
 
